@@ -180,11 +180,21 @@ class AxisTyper:
                         t = {0: X, 2: X, 4: Y, 5: Y}.get(i)
                         self._derived_memo[name] = t
                         return t
+        # element-wise tuple assignment: `scale, tx, ty = ST.a, ST.xoff, ST.yoff`
+        if len(defs) == 1 and isinstance(defs[0], ast.Assign) and len(defs[0].targets) == 1 and isinstance(defs[0].targets[0], (ast.Tuple, ast.List)) \
+                and isinstance(defs[0].value, (ast.Tuple, ast.List)) and len(defs[0].value.elts) == len(defs[0].targets[0].elts) \
+                and not any(isinstance(x, ast.Starred) for x in defs[0].targets[0].elts + defs[0].value.elts):
+            for e, v in zip(defs[0].targets[0].elts, defs[0].value.elts):
+                if isinstance(e, ast.Name) and e.id == name:
+                    comp = any(isinstance(x, ast.Attribute) and (x.attr in ATTR_AXIS or x.attr in ("xoff", "yoff") or (x.attr in ("a", "c", "e", "f") and _looks_affine(x.value, self.fi))) for x in ast.walk(v))
+                    t = self.tag(v, depth + 1) if comp else None
+                    self._derived_memo[name] = t
+                    return t
         if len(defs) != 1 or not isinstance(defs[0], ast.Assign) or len(defs[0].targets) != 1 or not isinstance(defs[0].targets[0], ast.Name):
             return None
         v = defs[0].value
-        # only scalars built from one axis component: a.x, abs(a.x), a.x * k ...
-        if not any(isinstance(x, ast.Attribute) and x.attr in ATTR_AXIS for x in ast.walk(v)):
+        # only scalars built from one axis component: a.x, abs(a.x), a.x * k, ST.a ...
+        if not any(isinstance(x, ast.Attribute) and (x.attr in ATTR_AXIS or x.attr in ("xoff", "yoff") or (x.attr in ("a", "c", "e", "f") and _looks_affine(x.value, self.fi))) for x in ast.walk(v)):
             return None
         t = self.tag(v, depth + 1)
         self._derived_memo[name] = t
@@ -220,6 +230,11 @@ class AxisTyper:
             if e.attr in ATTR_AXIS:
                 # .x/.y of an axis-pure container (self._xbin ...) still means that axis
                 return ATTR_AXIS[e.attr]
+            # named components of an affine: a/c/xoff belong to the x row, e/f/yoff to the y row (b, d mix the axes)
+            if e.attr in ("xoff", "yoff"):
+                return X if e.attr == "xoff" else Y
+            if e.attr in ("a", "c", "e", "f") and _looks_affine(e.value, self.fi):
+                return X if e.attr in ("a", "c") else Y
             fa = self.b.of_attr(e.attr)
             if fa is not None:
                 return fa
